@@ -14,7 +14,7 @@ use std::sync::atomic::{AtomicU64, Ordering};
 fn leaves() -> Vec<V> {
     vec![
         V::Nil, V::Bool(true), V::Bool(false), V::Int(0), V::Int(-7), V::Int(i64::MAX), V::Int(i64::MIN), V::Float(0.5), V::Float(-2.0), V::Float(1e300),
-        V::s(""), V::s(" "), V::s("a"), V::s("é👍"), V::s("10"), V::s("2.5"), V::s("true"), V::s("nil"), V::s("2020-02-29"), V::s("2020-02-29 23:59:59 +0530"),
+        V::s(""), V::s(" "), V::s("\u{a0}"), V::s("\u{2003}\u{b}"), V::s("a"), V::s("é👍"), V::s("10"), V::s("2.5"), V::s("true"), V::s("nil"), V::s("2020-02-29"), V::s("2020-02-29 23:59:59 +0530"),
         V::Date(2020, 2, 29), V::DateTime("2020-02-29 23:59:59 +0530".into()), V::DateTime("1999-12-31 23:59:59.005 -0330".into()),
     ]
 }
@@ -94,6 +94,10 @@ fn contains_kind(v: &V, f: &dyn Fn(&V) -> bool) -> bool {
 
 /// everything a template or filter can ask of a value
 fn observe(v: &dyn ValueView, with_text: bool) -> String {
+    observe_d(v, with_text, 2)
+}
+
+fn observe_d(v: &dyn ValueView, with_text: bool, depth: u32) -> String {
     let mut s = format!(
         "type={} truthy={} default={} empty={} blank={} scalar={} array={} object={} state={} nil={}",
         v.type_name(),
@@ -114,6 +118,18 @@ fn observe(v: &dyn ValueView, with_text: bool) -> String {
         let mut keys: Vec<String> = o.keys().map(|k| k.to_string()).collect();
         keys.sort();
         s.push_str(&format!(" size={} keys={keys:?}", o.size()));
+        if depth > 0 {
+            for k in &keys {
+                if let Some(x) = o.get(k) {
+                    s.push_str(&format!(" [{k}: {}]", observe_d(x, false, depth - 1)));
+                }
+            }
+        }
+    }
+    if let (Some(a), true) = (v.as_array(), depth > 0) {
+        for (i, x) in a.values().enumerate() {
+            s.push_str(&format!(" [{i}: {}]", observe_d(x, false, depth - 1)));
+        }
     }
     if let Some(sc) = v.as_scalar() {
         s.push_str(&format!(" int={:?} float={:?} bool={:?}", sc.to_integer(), sc.to_float().map(|f| f.to_bits()), sc.to_bool()));
@@ -159,6 +175,43 @@ fn views(report: &Report, depth: u32) {
                 out.push(("&&v", observe(rr, with_text), eqv(rr)));
                 if let Some(sc) = v.as_scalar() {
                     out.push(("as_scalar", observe(&sc, with_text), eqv(&sc)));
+                    let owned = sc.clone().into_owned();
+                    out.push(("Scalar::into_owned", observe(&owned, with_text), eqv(&owned)));
+                }
+                // the native Rust types that implement the view directly
+                match &d {
+                    V::Int(i) => out.push(("i64", observe(i, with_text), eqv(i))),
+                    V::Float(f) => out.push(("f64", observe(f, with_text), eqv(f))),
+                    V::Bool(b) => out.push(("bool", observe(b, with_text), eqv(b))),
+                    V::Str(st) => {
+                        let r: &str = st.as_str();
+                        out.push(("&str", observe(&r, with_text), eqv(&r)));
+                        out.push(("String", observe(st, with_text), eqv(st)));
+                        let k = liquid_core::model::KString::from_ref(st);
+                        out.push(("KString", observe(&k, with_text), eqv(&k)));
+                        let kc = liquid_core::model::KStringCow::from_ref(st);
+                        out.push(("KStringCow", observe(&kc, with_text), eqv(&kc)));
+                        let o = Some(st.clone());
+                        out.push(("Option<String>", observe(&o, with_text), eqv(&o)));
+                    }
+                    V::Arr(a) => {
+                        // a Vec of native strings / integers where the array is homogeneous
+                        if !a.is_empty() && a.iter().all(|x| matches!(x, V::Str(_))) {
+                            let vs: Vec<String> = a.iter().map(|x| if let V::Str(s) = x { s.clone() } else { String::new() }).collect();
+                            out.push(("Vec<String>", observe(&vs, with_text), eqv(&vs)));
+                        }
+                        if !a.is_empty() && a.iter().all(|x| matches!(x, V::Int(_))) {
+                            let vs: Vec<i64> = a.iter().map(|x| if let V::Int(i) = x { *i } else { 0 }).collect();
+                            out.push(("Vec<i64>", observe(&vs, with_text), eqv(&vs)));
+                        }
+                    }
+                    V::Obj(o) => {
+                        if !o.is_empty() && o.iter().all(|(_, x)| matches!(x, V::Str(_))) {
+                            let m: std::collections::HashMap<String, String> = o.iter().map(|(k, x)| (k.clone(), if let V::Str(s) = x { s.clone() } else { String::new() })).collect();
+                            out.push(("HashMap<String, String>", observe(&m, with_text), eqv(&m)));
+                        }
+                    }
+                    _ => {}
                 }
                 // serde through liquid's own serializer / deserializer
                 // (serde has no date type: a date crosses `Serialize` as its display string, so
@@ -420,7 +473,7 @@ fn derive_family(report: &Report) {
     let templates: Vec<liquid::Template> = PROBES.iter().map(|p| parser.parse(p).expect("probe parses")).collect();
     let ints = [0i64, -3, i64::MAX];
     let floats = [0.0f64, 0.5, -2.0];
-    let strs = ["", " ", "x", "é", "10"];
+    let strs = ["", " ", "x", "é", "10", "\u{a0}\u{2003}"];
     let mut n = 0u64;
     let mut nontriv = 0u64;
     let mut idx = 0u64;
